@@ -3680,6 +3680,26 @@ class StateEngine(object):
                 return
 
         """
+        The execution deadline (the State Machine's TimeoutSeconds, by default
+        the configured execution_ttl) is otherwise only noticed by the timers
+        of Task and Wait states. If this event is only being handled after the
+        deadline (a backlog on the event queue, a redelivery after a restart)
+        the execution has timed out whatever the type of the state is, so it
+        is failed here as those timers would, before the state does any work.
+        """
+        start_time = context["Execution"].get("StartTime")
+        if start_time:
+            execution_timeout = ASL.get("TimeoutSeconds", self.execution_ttl)
+            execution_timestamp = parse_rfc3339_datetime(start_time).timestamp()
+            if time.time() > execution_timestamp + execution_timeout:
+                message = ("Execution ran for longer than " +
+                           "the specified timeout value of " +
+                           f"{execution_timeout} seconds.")
+                handle_error(state, "States.ExecutionTimeout", message)
+                self.event_dispatcher.acknowledge(id)
+                return
+
+        """
         Use the ASL state type of the current state to dynamically invoke the
         appropriate ASL state handler given state type. The (Python) lambda
         provides a default handler in case of malformed ASL.
